@@ -532,6 +532,49 @@ func init() {
 			return "ok"
 		}))
 	}
+	// direct check on the real code: MakeGlyphNames is a pure query whose result is independent of
+	// the font — the font's own names are the same before and after the call, and scribbling over
+	// the returned list changes neither GlyphName nor a second MakeGlyphNames
+	ops["gnames.pure"] = func(f Fields) string {
+		font, bad := gnFont(f)
+		if bad != "" {
+			return bad
+		}
+		return canonPanic(guard(func() string {
+			snapshot := func() string {
+				switch o := font.Outlines.(type) {
+				case *glyf.Outlines:
+					if o.Names == nil {
+						return "nil"
+					}
+					return fmt.Sprintf("%d:", len(o.Names)) + gnHexNames(append([]string(nil), o.Names...))
+				case *cff.Outlines:
+					return gnHexNames(gnCffNames(o))
+				}
+				return "?"
+			}
+			before := snapshot()
+			first := font.MakeGlyphNames()
+			want := gnHexNames(first)
+			if after := snapshot(); after != before {
+				return fmt.Sprintf("font-changed-by-query:%s:%s", before, after)
+			}
+			perGlyph := gnHexNames(gnInstalled(font))
+			for i := range first {
+				first[i] = fmt.Sprintf("scribble%d", i)
+			}
+			if after := snapshot(); after != before {
+				return fmt.Sprintf("font-shares-memory-with-result:%s:%s", before, after)
+			}
+			if again := gnHexNames(gnInstalled(font)); again != perGlyph {
+				return fmt.Sprintf("GlyphName-changed:%s:%s", perGlyph, again)
+			}
+			if again := gnHexNames(font.MakeGlyphNames()); again != want {
+				return fmt.Sprintf("second-call-differs:%s:%s", want, again)
+			}
+			return "ok"
+		}))
+	}
 	yes := func(f Fields) string { return "yes" }
 	ops["gnames.complete"] = yes
 	ops["gnames.unique"] = yes
@@ -761,6 +804,9 @@ func gnCase(c *Ctx, n int, oob bool) {
 func gnEmit(c *Ctx, kind string, n int, nms []string, line string, nontriv, ensure bool) {
 	if parseFields(line)["gsub"] != "" && parseFields(line)["n"] != "0" {
 		c.Case(Direct, "gnames.stable", line, nontriv)
+	}
+	if parseFields(line)["n"] != "0" {
+		c.Case(Direct, "gnames.pure", line, nontriv)
 	}
 	out := c.Case(Verdict, "gnames.make", line, nontriv)
 	switch {
@@ -1599,6 +1645,9 @@ func areaGNames(c *Ctx) {
 	gnEmit(c, "cff", 8, make([]string, 8), "kind=cff n=8 nn=8 names=,,,,,,, cmap=102:1,105:2,108:3 fu=102:66,105:69,108:6c gsub=lg:1-0:1,4>5/2>6/3>7|", true, true)
 	// GSUB 1.1 with delta -2 (variants stored before their bases) as the only source of names
 	gnEmit(c, "glyf", 6, nil, "kind=glyf n=6 nn=0 names= cmap=97:3,98:4,99:5 fu=97:61,98:62,99:63 gsub=s1:65534:3,4,5", true, false)
+	// glyf fonts with a full-length Names list: duplicate, empty names, glyph 0 not called .notdef
+	gnEmit(c, "glyf", 4, []string{"zero", "A", "A", ""}, "kind=glyf n=4 nn=4 names=7a65726f,41,41, cmap=- fu= gsub=", true, true)
+	gnEmit(c, "glyf", 3, []string{".notdef", "A", "B"}, "kind=glyf n=3 nn=3 names=2e6e6f74646566,41,42 cmap=- fu= gsub=", true, false)
 	// rule order: two sources for one target; a chain through an unnamed glyph (GSUB 1.2)
 	gnEmit(c, "glyf", 5, []string{".notdef", "A", "a", "", ""}, "kind=glyf n=5 nn=5 names=2e6e6f74646566,41,61,, cmap=- fu= gsub=s2:2-1,1-0:3,3", true, false)
 	gnEmit(c, "glyf", 5, []string{".notdef", "a", "", "", ""}, "kind=glyf n=5 nn=5 names=2e6e6f74646566,61,,, cmap=- fu= gsub=s2:2-1,1-0:2,3", true, false)
